@@ -148,6 +148,66 @@ def _implicify_consts(fn, where):
     return vals
 
 
+def _std_engine(fn, where):
+    """Standardize.__standardize: which atoms the loop over a rule's matches collects for recalculation (hs) and what it writes.
+    Returns (names added to hs at the top level of the atom_fix loop, attributes written there, names added at the top level of the
+    bonds_fix loop, targets written there).  The collected names must be added unconditionally, after the renumbering through
+    `mapping` and before anything can leave the loop body; the rule loop must end with `for n in hs: self.calc_implicit(n)`."""
+    rule_loops = [n for n in fn.body if isinstance(n, ast.For) and 'enumerate(rules)' in ast.unparse(n.iter)]
+    if len(rule_loops) != 1:
+        raise TranslatorError(f'{where}: __standardize: the loop over the rules not found')
+    rl = rule_loops[0]
+    tail = [ast.unparse(x) for x in rl.body[-2:]]
+    if tail != ['for n in hs:\n    self.calc_implicit(n)', 'fixed.update(hs)']:
+        raise TranslatorError(f'{where}: __standardize: the rule loop no longer ends with the recalculation of hs: {tail}')
+    if not any(ast.unparse(x) == 'hs = set()' for x in rl.body):
+        raise TranslatorError(f'{where}: __standardize: hs is not a fresh set per rule')
+    maps = [n for n in rl.body if isinstance(n, ast.For) and 'get_mapping' in ast.unparse(n.iter)]
+    if len(maps) != 1:
+        raise TranslatorError(f'{where}: __standardize: the loop over the matches not found')
+    afix = [n for n in maps[0].body if isinstance(n, ast.For) and ast.unparse(n.iter) == 'atom_fix.items()']
+    if len(afix) != 1 or ast.unparse(afix[0].target) != '(n, (ch, ir))':
+        raise TranslatorError(f'{where}: __standardize: the atom_fix loop changed')
+    bfix = [n for n in afix[0].orelse if isinstance(n, ast.For) and ast.unparse(n.iter) == 'bonds_fix']
+    if len(bfix) != 1 or ast.unparse(bfix[0].target) != '(n, m, bo)':
+        raise TranslatorError(f'{where}: __standardize: the bonds_fix loop (else branch of the atom_fix loop) changed')
+
+    def collected(loop, renumbered):
+        """top-level `hs.add(x)` statements of the loop body that come after `x = mapping[x]` and before any compound statement"""
+        out, mapped = [], set()
+        for st in loop.body:
+            src = ast.unparse(st)
+            if isinstance(st, ast.Assign) and len(st.targets) == 1 and isinstance(st.targets[0], ast.Name) and src == f'{st.targets[0].id} = mapping[{st.targets[0].id}]':
+                mapped.add(st.targets[0].id)
+            elif isinstance(st, ast.Expr) and src.startswith('hs.add(') and isinstance(st.value.args[0], ast.Name):
+                if st.value.args[0].id not in mapped:
+                    raise TranslatorError(f'{where}:{st.lineno}: hs.add of a pattern number (not renumbered through mapping)')
+                out.append(st.value.args[0].id)
+            elif isinstance(st, (ast.If, ast.For, ast.While, ast.Try, ast.With)):
+                break
+            elif isinstance(st, (ast.Break, ast.Continue, ast.Return, ast.Raise)):
+                raise TranslatorError(f'{where}:{st.lineno}: the loop body can be left before hs is filled')
+        if set(renumbered) - mapped:
+            raise TranslatorError(f'{where}: {sorted(set(renumbered) - mapped)} not renumbered through mapping')
+        return out
+
+    def written(loop):
+        out = set()
+        for node in ast.walk(ast.Module(body=loop.body, type_ignores=[])):
+            targets = node.targets if isinstance(node, ast.Assign) else [node.target] if isinstance(node, ast.AugAssign) else []
+            for t in targets:
+                if isinstance(t, (ast.Attribute, ast.Subscript)):
+                    out.add(ast.unparse(t))
+        return sorted(out)
+    a_col, b_col = collected(afix[0], ['n']), collected(bfix[0], ['n', 'm'])
+    a_names = {ast.unparse(st.targets[0]): ast.unparse(st.value) for st in afix[0].body if isinstance(st, ast.Assign) and isinstance(st.targets[0], ast.Name)}
+    b_names = {ast.unparse(st.targets[0]): ast.unparse(st.value) for st in ast.walk(ast.Module(body=bfix[0].body, type_ignores=[]))
+               if isinstance(st, ast.Assign) and len(st.targets) == 1 and isinstance(st.targets[0], ast.Name)}
+    if a_names.get('a') != 'atoms[n]' or b_names.get('b') != 'bonds[n][m]':
+        raise TranslatorError(f'{where}: __standardize: `a = atoms[n]` / `b = bonds[n][m]` changed: {a_names} {b_names}')
+    return a_col, written(afix[0]), b_col, written(bfix[0])
+
+
 def main(repo='/repo', dest=None):
     dest = dest or gen_path('ValenceSrc.v')
     path = os.path.join(repo, 'chython/containers/molecule.py')
@@ -189,6 +249,9 @@ def main(repo='/repo', dest=None):
     if set(consts) != {'H', 'C'}:
         raise TranslatorError(f'{spath}: module constants H / C not found')
     iv = _implicify_consts(_func(stree, 'Standardize', 'implicify_hydrogens', spath), spath)
+    a_col, a_wr, b_col, b_wr = _std_engine(_func(stree, 'Standardize', '_Standardize__standardize', spath) if any(
+        isinstance(f, ast.FunctionDef) and f.name == '_Standardize__standardize' for c in stree.body if isinstance(c, ast.ClassDef) for f in c.body)
+        else _func(stree, 'Standardize', '__standardize', spath), spath)
     text = ('(* GENERATED by tools/gen_valence_src.py from chython/containers/molecule.py and chython/algorithms/standardize/molecule.py -- do not edit *)\n'
             'From Coq Require Import ZArith List String Bool.\nImport ListNotations.\nOpen Scope Z_scope.\n\n'
             '(* the if / elif chain after the neighbour loop of calc_implicit: Some v = store v and return, None = go on to the rules *)\n'
@@ -200,7 +263,13 @@ def main(repo='/repo', dest=None):
             f'Definition src_check_hydrogen_value : Z := {zraw(hc)}.\n'
             '(* implicify_hydrogens: H and C of the module, isotope of a plain hydrogen, order of the H bond, any order (hydrogen bond count, hydrogen\n'
             '   bonds, bonds of the heavy atom), number of non-8 bonds a hydrogen may have *)\n'
-            f'Definition src_impl_consts : list Z := {lst([consts["H"], consts["C"], iv["iso"], iv["single"], iv["any1"], iv["any2"], iv["any3"], iv["thr"]], zraw)}.\n')
+            f'Definition src_impl_consts : list Z := {lst([consts["H"], consts["C"], iv["iso"], iv["single"], iv["any1"], iv["any2"], iv["any3"], iv["thr"]], zraw)}.\n'
+            '(* Standardize.__standardize, per match of a rule: the (renumbered) names added to hs unconditionally at the top of the atom_fix loop / of the\n'
+            '   bonds_fix loop, and everything the two loops assign to (a = atoms[n], b = bonds[n][m]); the rule loop ends with `for n in hs: self.calc_implicit(n)` *)\n'
+            f'Definition src_std_afix_collects : list string := {lst(a_col, s)}.\n'
+            f'Definition src_std_afix_writes : list string := {lst(a_wr, s)}.\n'
+            f'Definition src_std_bfix_collects : list string := {lst(b_col, s)}.\n'
+            f'Definition src_std_bfix_writes : list string := {lst(b_wr, s)}.\n')
     write_if_changed(dest, text)
     return dest
 
